@@ -1178,21 +1178,35 @@ def run_e2e(case):
         _FakeRandomBits.counter = 0
         aged = _Run(case["src"])
         rel_bad = None
+        i2_bad = False
         for j, ev in enumerate(hist):
             _Clock.offset_us += 1000
             if j == i:
                 n_before = len(aged.state.flow_states)
                 _Clock.offset_us += AGE_US * 2
+            if j >= i and not i2_bad:
+                # hypothesis I2 of the T3 lemmas (`Bisim.ActParentsKept`) on the real state: will the clean-up of this step discard
+                # the parent instance of a still activated flow?  (region of the open finding cleanup-dangling-parent)
+                fsd, now = aged.state.flow_states, _Clock.now()
+                for f0 in fsd.values():
+                    par = fsd.get(f0.parent_uid) if f0.activated > 0 and f0.parent_uid else None
+                    if (par is not None and par.status.name in ("FINISHED", "STOPPED") and par.activated == 0
+                            and (now - par.status_updated) > timedelta(microseconds=AGE_US)):
+                        obs["facts"]["act_parent_discardable"] = True
+                        i2_bad = True
             out = aged.feed(ev)
             # the hypothesis of the T3 lemmas (`Bisim.Aged`), checked on the real states after every later event
-            if j >= i and rel_bad is None and not isinstance(out, str) and not isinstance(live_outs[j], str) and live_summ[j] is not None:
+            if j >= i and rel_bad is None and not i2_bad and not isinstance(out, str) and not isinstance(live_outs[j], str) and live_summ[j] is not None:
                 obs["aged_rel_checked"] = obs.get("aged_rel_checked", 0) + 1
                 try:
                     why = _aged_violation(live_summ[j], _aged_summary(aged.state))
-                except Exception as e:  # noqa
+                except Exception as e:  # noqa  -- the summary could not be taken: counted, never silent
                     why = None
+                    obs["aged_rel_error"] = type(e).__name__ + ": " + str(e)[:80]
                 if why:
                     rel_bad = {"cut": i, "what": "aged-relation", "step": j, "msg": why}
+            elif i2_bad:
+                obs["aged_rel_skipped_i2"] = obs.get("aged_rel_skipped_i2", 0) + 1
         if rel_bad:
             obs["problems"].append(rel_bad)
         a, b = _canon_outputs(live_outs[i:]), _canon_outputs(aged.outs[1 + i:])
@@ -1586,6 +1600,10 @@ def tags(case, obs):
             t.append("aged-removed:" + str(min(obs["removed_by_ageing"], 5)))
             if obs.get("aged_rel_checked"):
                 t.append("aged-relation-checked")
+            if obs.get("aged_rel_error"):
+                t.append("aged-relation-summary-error")
+            if obs.get("aged_rel_skipped_i2"):
+                t.append("aged-relation-skipped:parent-of-activated-discardable")
             for f in case.get("features", []):
                 t.append("feat:" + f)
             for p in obs["problems"][:1]:
